@@ -15,7 +15,7 @@ MID4 = ["u64", "u128", "usize", "Ipv6Net"]
 EXPECTED_SHAPES = {
     ("U2", "hi", "full"): 1058, ("U2", "hi", "structural"): 1058, ("U2", "lo", "full"): 2206, ("U2", "lo", "structural"): 2206,
     ("U2", "hi", "canonical"): 128, ("U2", "lo", "canonical"): 256, ("U3", "hi", "canonical"): 32768,
-    ("U2", "mid", "full"): 2206, ("U2", "mid", "structural"): 2206, ("fork4", "hi", "structural"): 8010, ("comb6", "hi", "structural"): 336138,
+    ("chain8", "hi", "structural"): 13122, ("U2", "mid", "full"): 2206, ("U2", "mid", "structural"): 2206, ("fork4", "hi", "structural"): 8010, ("comb6", "hi", "structural"): 336138,
     ("U3", "hi", "structural"): 2433218, ("U3", "hi", "full"): 2433218, ("comb5", "hi", "structural"): 48018, ("comb5", "hi", "full"): 48018,
 }
 
@@ -51,6 +51,8 @@ def plan_c01(tier, seed):
     runs = grid(["map", "set"], ALL, ["U2"], ["hi", "lo"], "full", ["exact"], ["lookups"])
     runs += grid(["map", "set"], MID4, ["U2"], ["mid"], "full", ["exact"], ["lookups"])
     runs += grid(["map", "set"], ["u8"], ["fork4"], ["hi"], "structural", ["exact"], ["lookups"], retain_all=False, threads=4)
+    runs += grid(["map", "set"], ["u8"], ["chain8"], ["hi"], "structural", ["exact"], ["lookups"], retain_all=False, threads=4)
+    runs += [{"engine": "histories", "ptype": t, "universe": "chainW", "embed": "hi", "observers": ["exact"]} for t in ALL]
     if tier == "quick":
         runs += grid(["map"], ["u8"], ["U3"], ["hi"], "canonical", ["exact"], threads=8, retain_all=False)
     if tier == "thorough":
@@ -69,6 +71,10 @@ def e1_plan(obs_map, obs_set, alpha="structural", quick_types=ALL, canonical_obs
         runs += grid(["map"], [t for t in MID4 if t in types], ["U2"], ["mid"], alpha, obs_map, obs_set)
         # a depth-4 fork below a chain (grandparent collapse with non-root grandparents, depth-4 sides)
         runs += grid(["map"], ["u8"], ["fork4"], ["hi"], "structural", obs_map, obs_set, retain_all=False, threads=4)
+        # paths of width+1 nodes: every shape of the chain of all nine nested prefixes of an 8-bit address,
+        # and fixed build/removal histories over the chain of ALL lengths 0..=width for every type
+        runs += grid(["map"], ["u8"], ["chain8"], ["hi"], "structural", obs_map, obs_set, retain_all=False, threads=4)
+        runs += [{"engine": "histories", "ptype": t, "universe": "chainW", "embed": "hi", "observers": obs_map} for t in ALL]
         if canonical_obs is not None:
             runs += grid(["map"], types, ["U2"], ["hi", "lo"], "canonical", canonical_obs)
         # every key set over all prefixes of length <= 3 (32 768 canonical shapes, bushy depth 3)
@@ -244,6 +250,8 @@ def plan_c20(tier, seed):
     runs += [pr("u8", "U2", "hi", "whole", "structural", "structural", threads=8)]
     runs += [pr(t, "U2", "lo", "all", "canonical", "canonical", threads=2) for t in ["u8", "u64", "Ipv6Net", "Ipv4Inet"]]
     runs += [{"engine": "algebra", "ptype": t, "seed": seed, "deep": False} for t in ALL]
+    runs += grid(["map", "set"], ["u8"], ["chain8"], ["hi"], "structural", read_obs, ["lookups", "iters", "views"], retain_all=False, threads=4)
+    runs += [{"engine": "histories", "ptype": t, "universe": "chainW", "embed": "hi", "observers": read_obs + ["find", "children"]} for t in ALL]
     plan = {"runs": runs, "jobs": 8,
             "rule": "every call issued by the explorers, observers, pair engine and algebra engine runs under catch_unwind in a build with overflow checks and debug assertions; "
                     "handle-level programs (<= 2 non-consuming calls then one consuming call; <= 3 in the thorough tier) on entries and mutable views; a panic injected at every "
